@@ -123,7 +123,8 @@ def effectiveChain (c : ExprConfig) : List (List Char) :=
     a.filter (· ≠ nName)
 
 /-- which of the three sources the condition of `visitExpression` looks at (from the regenerated
-`exprFilterSources`) -/
+`exprFilterSources`: membership of the three dotted names only - how the condition combines them is part of the
+transcription `writeExpression` below, compared by `corr.exprconfig`) -/
 structure SourceChecks where
   own : Bool
   page : Bool
